@@ -82,7 +82,7 @@ def run(ctx):
     beh_paths = []
     if quick:
         # every sequence of <= 2 tests over the core pool + a seeded sample of the assertion-family tests, main VCL 1;
-        fams = rng.sample(fam_all, 6)
+        fams = rng.sample(fam_all, 4)
         m1 = ctx.tlc("Tester", defines={"MaxLen": "2", "Pool": "CoreNames \\cup " + tla_set(fams), "MainIds": "MainOne",
                                         "MaxFam": "1"}, tag="len<=2 main1")
         # every single test and a seeded set of pairs against main VCL 2
@@ -114,10 +114,10 @@ def run(ctx):
         if m.violated:
             raise MachineryFault("Tester.tla: the mechanism layer violates the requirement layer on the model: %s "
                                  "(a lead, not a verdict - see %s)" % (m.violated, m.out_path))
-    # quick: the API for every file + one of the two CLI modes, alternating; thorough: all three ways for the
+    # quick: the API for every file + one of the two CLI modes (alternating) for every third file; thorough: all three ways for the
     # files of <= 2 tests, API + alternating CLI mode for the longer ones
     if quick:
-        groups = [("all", [m.beh_path for m in runs_tlc], "api,cli")]
+        groups = [("all", [m.beh_path for m in runs_tlc], "api,cli3")]
     else:
         groups = [("short", [runs_tlc[0].beh_path], "api,json,plain"), ("long", [m.beh_path for m in runs_tlc[1:]], "api,cli")]
     total = 0
@@ -180,4 +180,5 @@ def plant_canaries(ctx, runs):
 CORE = ["recv_a1", "recv_a2x", "recv_a3y", "recv_dflt", "recv_wrong", "recv_err", "recv_restart", "recv_pass", "recv_twice",
         "fail_assert", "fail_late", "runtime_err", "bad_call", "skipped", "skipped2", "mut_table", "read_table",
         "set_header", "read_header", "inject_var", "read_var", "mock_sub", "mock_fn", "unmocked", "set_host", "read_host",
-        "logs", "logs_main", "two_scopes", "two_leak", "two_var", "deliver_fx", "deliver_log", "empty"]
+        "logs", "logs_main", "two_scopes", "two_leak", "two_var", "deliver_fx", "deliver_log", "zone_unset", "zone_in",
+        "zone_out", "zone_bad", "zone_noguard", "empty"]
